@@ -102,7 +102,7 @@ SPEC = TreeSpec(
     sample_of=sample_of,
     reset=_reset,
     quick_examples=10,
-    thorough_examples=40,
+    thorough_examples=60,
     assumptions=("hang detection is by read-call count, not by wall clock",),
 )
 
